@@ -114,12 +114,15 @@ class SimLocale:
         self.current = {cat: 'C' for cat in LC_NAMES}
         self.fail_plan = set()     # indexes (1-based) of *setting* calls that fail
         self.fail_always = False
+        self.fail_only_new = False     # never refuse a locale that was installed successfully before
+        self.ok_identities = set()
         self.set_calls = 0
         self.query_calls = 0
         self.faults_fired = 0
         self.fault_values = []
         self.strcoll_calls = 0
         self.log = None            # optional event sink
+        self.initial_identity = locale_identity(initial)
         if initial != 'C':
             assert locale_identity(initial) in self.installed, 'initial locale must be installed'
             self.current[LC_COLLATE] = initial
@@ -142,16 +145,18 @@ class SimLocale:
         self.set_calls += 1
         if self.log is not None:
             self.log(('setlocale', LC_NAMES.get(category, 'LC_ALL'), value))
-        if self.fail_always or self.set_calls in self.fail_plan:
+        name = self.user_default if value == '' else value
+        ident = locale_identity(name)
+        if (self.fail_always or self.set_calls in self.fail_plan) and not (
+                self.fail_only_new and (ident in self.ok_identities or ident == self.initial_identity)):
             self.faults_fired += 1
             self.fault_values.append(value)
             if self.log is not None:
                 self.log(('setlocale-fault', self.set_calls))
             raise _pylocale.Error('unsupported locale setting')
-        name = self.user_default if value == '' else value
-        ident = locale_identity(name)
         if ident not in self.installed:
             raise _pylocale.Error('unsupported locale setting')
+        self.ok_identities.add(ident)
         if category == LC_ALL:
             for c in self.current:
                 self.current[c] = name
@@ -554,6 +559,12 @@ class World:
             return sys.monitoring.DISABLE
         self.steps += 1
         if self.crash_at is not None and self.steps == self.crash_at:
+            if lineno in cleanup_lines(code.co_filename):
+                # an asynchronous exception inside a finally body / __exit__ cannot be survived by any
+                # program; the crash is deferred to the first line after the clean-up code
+                self.crash_at += 1
+                self.probe('crash-deferred-out-of-cleanup')
+                return None
             self.crash_fired += 1
             self.crash_at = None
             raise SimCrash('crash at step %d (%s:%d)' % (self.steps, os.path.basename(code.co_filename), lineno))
@@ -569,6 +580,33 @@ class World:
 
     def locks_held(self):
         return [lk.where for lk in self.locks if lk.locked()]
+
+
+_CLEANUP = {}
+
+
+def cleanup_lines(filename):
+    """Line numbers inside `finally:` bodies and __exit__/__del__ methods of a source file."""
+    got = _CLEANUP.get(filename)
+    if got is None:
+        import ast
+        got = set()
+        try:
+            with open(filename) as fp:
+                tree = ast.parse(fp.read())
+            for node in ast.walk(tree):
+                body = []
+                if isinstance(node, ast.Try):
+                    body = node.finalbody
+                elif isinstance(node, (ast.FunctionDef, ast.AsyncFunctionDef)) and node.name in ('__exit__', '__del__'):
+                    body = node.body
+                for st in body:
+                    for ln in range(st.lineno, (st.end_lineno or st.lineno) + 1):
+                        got.add(ln)
+        except (OSError, SyntaxError):
+            pass
+        _CLEANUP[filename] = got
+    return got
 
 
 WORLD = World()
